@@ -125,7 +125,7 @@ pub fn gen_parser(t: &mut Tape<'_>) -> ParserSpec {
         8 => ParserSpec::Boolish,
         9 => ParserSpec::Falsey,
         _ => {
-            let mut names = vec!["fast", "slow", "auto", "always", "never", "a", "A", "fa", "x-y", "1"];
+            let mut names = vec!["fast", "slow", "auto", "always", "never", "a", "A", "fa", "x-y", "1", "gr\u{f6}\u{df}e", "h\u{f6}he", "\u{5b57}"];
             let n = t.range(1, 4);
             let mut pvs = Vec::new();
             for _ in 0..n {
@@ -689,6 +689,7 @@ fn gen_level(t: &mut Tape<'_>, opts: &GenOpts, depth: usize, name: &str, inh: &I
     // the same definition through other builder routes / histories (see `Settings::route`, `decoy_history`)
     for a in &mut args {
         a.decoy_history = t.chance(1, 5);
+        a.static_id = t.bool();
         if a.action == Action::SetTrue && !a.is_positional() && a.num_args.is_none() && t.chance(1, 4) {
             // a flag declared through `num_args(0)` and no action
             a.num_args = Some((0, 0));
